@@ -13,8 +13,13 @@ package kvql
 //@ define pkAllOk(q *PutKVPair) Bool = pkOk(q) && evalok(q.Value, pkKey(q), eps)
 //@ define pkVal(q *PutKVPair) B = val(toString(evalv(q.Value, pkKey(q), eps)))
 //
-//@ func toString(value any) string
+//@ func toString(value any) (s string)
 //@   pure
+//@   props C10
+//@   assigns nothing
+//@   ensures[C10] text: isText(value) ==> val(s) == textOf(value)
+//@   ensures[C10] decimal: isInt(value) ==> val(s) == itoa(intof(value))
+//@   ensures[C10] truth: isbool(value) ==> val(s) == ite(bval(value), "true", "false")
 //
 //@ func (p *PutPlan) processKVPair(ctx *ExecuteCtx, kvp *PutKVPair) (key []byte, value []byte, err error)
 //@   props C12 C13
